@@ -30,7 +30,7 @@ Qed.
 
 (** where a word may start relative to the boundary [sn] it connects to *)
 Definition word_start (o : options) (s : sentence) (sn sw : nat) : Prop :=
-  sw = sn \/ (is_space o (s_ci s sn) = true /\ sw = (sn + s_grp s sn)%nat).
+  (is_space o (s_ci s sn) = false /\ sw = sn) \/ (is_space o (s_ci s sn) = true /\ sw = (sn + s_grp s sn)%nat).
 
 Lemma scan_nodes d o s (phi : node -> Prop) :
   (forall sn sw c, (sn <= sw < s_len s)%nat -> word_start o s sn sw -> In c (candidates d o s sw) ->
@@ -44,7 +44,7 @@ Proof.
   set (sw' := if is_space o (s_ci s sn) then (sn + s_grp s sn)%nat else sn) in *.
   assert (Hws : word_start o s sn sw').
   { subst sw'. unfold word_start. destruct (is_space o (s_ci s sn)); auto. }
-  assert (Hle : (sn <= sw')%nat) by (destruct Hws as [->|[_ ->]]; lia).
+  assert (Hle : (sn <= sw')%nat) by (destruct Hws as [[_ ->]|[_ ->]]; lia).
   destruct (Nat.eqb sw' (s_len s)) eqn:E2; [inversion H; subst; exact HL|]. apply Nat.eqb_neq in E2.
   destruct (Nat.ltb (s_len s) sw') eqn:E3; [discriminate|]. apply Nat.ltb_ge in E3.
   destruct (insert_all (conn_of d) L sn (candidates d o s sw')) as [L1|] eqn:E; [|discriminate].
